@@ -716,6 +716,11 @@ static int align_buffer_end(flatcc_builder_t *B, uint16_t *align, uint16_t block
     block_align = block_align ? block_align : B->block_align ? B->block_align : 1;
     get_min_align(align, field_size);
     get_min_align(align, block_align);
+    /* All padding is taken from a fixed block of zeroes. */
+    if (*align > sizeof(flatcc_builder_padding_base)) {
+        check(0, "buffer alignment exceeds the available padding");
+        return -1;
+    }
     /* Pad end of buffer to multiple. */
     if (!is_nested) {
         end_pad = back_pad(B, *align);
